@@ -2,6 +2,7 @@ package main
 
 import (
 	"fmt"
+	"sync"
 	"runtime"
 	"strings"
 
@@ -197,14 +198,36 @@ func (fr *followerRun) close() {
 // Replicate returns.
 func attachStream(fc server.FollowerController, ls *leaderStub) chan struct{} {
 	done := make(chan struct{})
+	var mu sync.Mutex
+	entered, abandoned := false, false
 	go func() {
+		defer close(done)
+		mu.Lock()
+		if abandoned {
+			mu.Unlock()
+			ls.closed.Store(true)
+			return
+		}
+		entered = true
+		mu.Unlock()
 		fc.Replicate(ls)
 		ls.closed.Store(true)
-		close(done)
 	}()
-	waitFor(stepTimeout, func() bool {
+	attached := func() bool {
 		return ls.closed.Load() || (goroutineRunning("followerController).handleServerStream") && goroutineRunning("followerController).handleReplicateSync"))
-	})
+	}
+	if !waitFor(stepTimeout, attached) {
+		mu.Lock()
+		if !entered {
+			// the goroutine has not been scheduled yet (busy machine): it will not call Replicate any more
+			abandoned = true
+			mu.Unlock()
+			return done
+		}
+		mu.Unlock()
+		// Replicate has been entered: it must get to serve the stream (or return) before anything else happens
+		waitFor(10*stepTimeout, attached)
+	}
 	return done
 }
 
